@@ -17,7 +17,7 @@ def monitorLine (l : Line) : Option String :=
   match str l "kind" with
   | "handler" =>
     _root_.C09.handlerOK { panic := bool l "panic", commits := nat l "commits", logicAfterErr := nat l "afterErr" }
-  | "dec" | "claims" | "verify" | "client" | "hint" => _root_.C09.outcomeOK (clsOfObs (str l "obs"))
+  | "dec" | "claims" | "verify" | "client" | "hint" | "bytes" | "rph" => _root_.C09.outcomeOK (clsOfObs (str l "obs"))
   | _ => some "bad-kind"
 
 def statusClass (n : Nat) : String := toString (n / 100) ++ "xx"
@@ -27,12 +27,16 @@ def classOf (l : Line) : String :=
   match str l "kind" with
   | "handler" =>
     let ent := if str l "entry" == "" then "unrouted" else str l "entry"
-    let tok := if has l "tplace" then ":" ++ esc (str l "tplace") ++ ":" ++ esc (lastSeg (str l "tcheck")) else ""
+    let tok := if has l "tplace" then ":" ++ esc (str l "tplace") ++ ":" ++ esc (lastSeg (str l "tcheck"))
+      else if has l "lplace" then ":" ++ esc (str l "lplace") ++ ":" ++ esc (str l "lcls") else ""
     "handler:" ++ str l "router" ++ ":" ++ esc ent ++ ":" ++ esc (((str l "mut").splitOn ":").headD "") ++ tok ++ ":" ++ statusClass (nat l "status")
   | "dec" => "dec:" ++ str l "type" ++ ":" ++ str l "mode" ++ ":" ++ str l "ptype" ++ ":" ++ str l "obs"
   | "claims" => "claims:" ++ esc (str l "type") ++ ":" ++ str l "ptype" ++ ":" ++ str l "obs"
   | "verify" => "verify:" ++ esc (str l "fn") ++ ":p" ++ toString (nat l "parts") ++ ":" ++ str l "ptype" ++ ":" ++ str l "obs"
   | "hint" => "hint:" ++ esc (str l "caller") ++ ":" ++ esc (lastSeg (str l "tcheck")) ++ ":" ++ str l "obs"
+  | "bytes" => "bytes:" ++ esc (str l "via") ++ ":" ++ esc (str l "cls") ++ ":" ++ str l "obs"
+  | "rph" => "rph:" ++ esc (str l "handler") ++ ":" ++ esc (str l "rp") ++ ":" ++ esc (str l "req") ++ ":" ++ esc (str l "token") ++ ":" ++ esc (str l "userinfo") ++
+      (if has l "jwks" then ":" ++ esc (str l "jwks") else "") ++ (if has l "device" then ":" ++ esc (str l "device") else "") ++ ":" ++ str l "obs"
   | "client" => "client:" ++ esc (str l "helper") ++ ":" ++ statusClass (nat l "status") ++ ":" ++ str l "ptype" ++ ":" ++ str l "obs"
   | k => "other:" ++ esc k
 
